@@ -37,6 +37,10 @@
 //!       (`s2`) went onto the wire, i.e. while the responder waits for the acknowledgement inside `send_with` — between
 //!       the `Resume1MIC` check and the fabric look-up of `try_handle_sigma1_resume`, resp. between Sigma2 and the
 //!       fabric re-read of `handle_casesigma3`. The outcome carries the word `gapped` when the removal ran.
+//!       `gap=w`: the same state changes run as soon as the device holds a RESERVED session loaded with `Case { fab }` -
+//!       `try_handle_sigma1_resume` is suspended between `update_with_state` and `session.complete()`, waiting for
+//!       SigmaFinished. Needs a schedule under which Sigma2_Resume is acknowledged on its own (first SigmaFinished lost,
+//!       the retransmitted Sigma2_Resume is answered with a stand-alone acknowledgement): `sched=ddx`.
 //!   `rmfab`      the device removes its fabric the way the RemoveFabric handler does (`Fabrics::remove`,
 //!                `Sessions::remove_for_fabric`, `ResumableSessions::remove_for_fabric`); `=> removed dc=<cache>`
 //!   `addfab root=<rec> dnoc=<rec> dicac=<rec|-> [dkey=<k>]`   the device installs a fabric (it re-uses the index)
@@ -540,7 +544,20 @@ fn handshake<C: Crypto>(crypto: &C, n: &Nodes, mutation: Option<Mutation>, sched
             polls.set(polls.get() + 1);
         }
         let _ = &ack_seen;
-        let gap_now = gap_seen.get() && !gapped.get();
+        // `gap=w`: state-based - the device holds a RESERVED session that already carries `Case { fab_idx }` of the
+        // fabric, i.e. `try_handle_sigma1_resume` has loaded the reserved session (`update_with_state`) and is suspended
+        // in `recv_fetch` waiting for SigmaFinished (the acknowledgement of Sigma2_Resume arrived on its own)
+        let waiting = gap.as_deref() == Some("w")
+            && !gapped.get()
+            && n.dev_fab.get().map_or(false, |idx| {
+                n.dev.with_state(|st| {
+                    st.verif_sessions().iter().any(|s| {
+                        let (reserved, _, _, _) = s.verif_view();
+                        reserved && matches!(s.get_session_mode(), SessionMode::Case { fab_idx, .. } if *fab_idx == idx)
+                    })
+                })
+            });
+        let gap_now = (gap_seen.get() || waiting) && !gapped.get();
         if gap_now {
             gapped.set(true);
         }
